@@ -900,25 +900,24 @@ impl<'a, R: CharRead> Parser<'a, R> {
         Negator: Fn(N, &mut Arena) -> N,
         ToLiteral: Fn(N) -> Literal,
     {
+        // look at the last term by reference: cloning it (it can be arbitrarily large and deep)
+        // for every number token is quadratic and recurses on its nesting depth
+        let last_is_minus = matches!(
+            self.terms.last(),
+            Some(Term::Literal(_, Literal::Atom(name))) if *name == atom!("-")
+        );
+
         if let Some(desc) = self.stack.last().cloned() {
-            if let Some(term) = self.terms.last().cloned() {
-                match term {
-                    Term::Literal(_, Literal::Atom(name))
-                        if name == atom!("-")
-                            && (is_prefix!(desc.spec) || is_negate!(desc.spec)) =>
-                    {
-                        self.stack.pop();
-                        self.terms.pop();
+            if last_is_minus && (is_prefix!(desc.spec) || is_negate!(desc.spec)) {
+                self.stack.pop();
+                self.terms.pop();
 
-                        let arena = &mut self.lexer.machine_st.arena;
-                        let literal = constr(negator(n, arena));
+                let arena = &mut self.lexer.machine_st.arena;
+                let literal = constr(negator(n, arena));
 
-                        self.shift(Token::Literal(literal), 0, TERM);
+                self.shift(Token::Literal(literal), 0, TERM);
 
-                        return;
-                    }
-                    _ => {}
-                }
+                return;
             }
         }
 
